@@ -2,7 +2,25 @@
 
 `close()` "from a non-loop thread" and the thread-based `ServiceBrowser` run on real threads and real (shortened)
 time here: the instance's sockets are replaced by recording transports on a *real* asyncio loop, the protocol timing
-constants of `_core` are shortened, and each scenario lasts a few hundred milliseconds of wall time.
+constants of `_core` (and, where a scenario says so, the cache-cleanup period, the PTR TTL floor and the safeguard
+timeouts of the sync API) are shortened, and each scenario lasts from a few hundred milliseconds to two seconds of
+wall time.
+
+Two kinds of instance: **thread-backed** (created with no running loop: the instance runs its own loop in a thread,
+`close()` stops it) and **loop-backed** (created inside a running loop: `close()` comes from an executor thread, the loop
+goes on afterwards — whatever the close leaves armed can still fire).
+
+Stage O — the property's sentences on what the recording transports, the listeners and the loop exception handler saw:
+every record of every registered service handed to a transport with TTL 0 before the transports close; nothing handed to a
+transport, no listener callback and no loop error after `close()` returned; `done`, transports closed, cleanup timer
+cancelled (loop-backed: it would fire), tracked browsers cancelled; a second, third, … `close()` — sequential, from the same
+or another thread — returns at once, raises nothing, sends nothing, changes nothing.
+
+Stage C — `Zeroconf.close()` is four calls (`unregister_all_services`, `_close`, `engine.close`, `_shutdown_threads`);
+class-level wrappers read the instance's state before and after **each of them**, count the goodbye datagrams transmitted
+inside and note what was raised; the Lean model's blocks for that call (`Shutdown.acceptSyncCall`: `closeCall true`,
+`closeGoodbye`, `closeMarkDone`, `closeShutdown`, `closeFinish`, `closeThreadsCheck`, `closeThreadsStop`) must be
+enabled, raise exactly when the implementation raised and leave exactly the observed state.
 
 What is deterministic: the verdicts on a correct tree (every wait in the library is a join / a blocking
 `run_coro_with_timeout`, so "before close returned" is decided by program order, not by timing); the scenarios
@@ -24,6 +42,9 @@ from . import common as C  # noqa: F401  (sys.path)
 TA = "_a._tcp.local."
 TB = "_b._tcp.local."
 MDNS = "224.0.0.251"
+D30_SIG = "C17:close-from-tracked-browser-callback-thread-raises"
+D31_SIG = "C17:untracked-thread-browser-delivers-queue-after-close"
+D32_SIG = "C17:overlapping-sync-closes-raise"
 
 
 class RTTransport(asyncio.DatagramTransport):
@@ -54,18 +75,41 @@ class RTTransport(asyncio.DatagramTransport):
         return self.closed
 
 
-class Rig:
-    """patches that give every Zeroconf instance created inside `with Rig() as rig:` fake sockets and short timers"""
+def snapshot(zc):
+    """what the model's `SyncSnap` holds, read off the real objects"""
+    eng = zc.engine
+    trs = [t.transport for t in eng.senders + eng.readers]
+    t = eng._cleanup_timer
+    return {
+        "done": bool(zc.done),
+        "tclosed": bool(trs) and all(x.is_closing() for x in trs),
+        "cleanup": bool(t is not None and not t.cancelled()),
+        "loop_thread": zc._loop_thread is not None,
+        "loop_running": bool(zc.loop is not None and zc.loop.is_running()),
+        "registry": len(zc.registry.async_get_service_infos()),
+        "zc_browsers": len(zc.browsers),
+        "zc_cancelled": sum(1 for b in list(zc.browsers.values()) if b.done),
+    }
 
-    def __init__(self, fast=15):
+
+class Rig:
+    """patches that give every Zeroconf instance created inside `with Rig() as rig:` fake sockets and short timers, and
+    log the four calls `Zeroconf.close()` makes"""
+
+    def __init__(self, fast=15, cleanup_interval=None, ptr_min_ttl=None, safeguard=None, flush=True):
         self.log = []
+        self.flush = flush   # (off for the scenarios with concurrent closers: the extra round trip through the loop would move the race)
+        self.calls = []     # one entry per (instance, call of close's four steps)
         self.fast = fast
+        self.cleanup_interval, self.ptr_min_ttl, self.safeguard = cleanup_interval, ptr_min_ttl, safeguard
         self.patches = []
 
     def __enter__(self):
         from . import vsim
         import zeroconf._core as core
         import zeroconf._engine as eng
+        import zeroconf._handlers.record_manager as rmm
+        import zeroconf._utils.asyncio as uas
         from zeroconf._listener import AsyncListener
         from zeroconf._transport import make_wrapped_transport
 
@@ -95,13 +139,54 @@ class Rig:
                 if s in senders:
                     self_.senders.append(make_wrapped_transport(tr))
 
+        def logged(name, get_zc, orig):
+            def f(self_, *a, **k):
+                zc = get_zc(self_)
+                who = threading.current_thread()
+                caller = None
+                for i, b in enumerate(list(zc.browsers.values())):
+                    if b is who:
+                        caller = i
+                ent = {"call": name, "thread": who.name, "caller": caller, "before": snapshot(zc), "n_log": len(rig.log), "raised": None}
+                rig.calls.append(ent)
+                try:
+                    return orig(self_, *a, **k)
+                except BaseException as ex:  # noqa: BLE001
+                    ent["raised"] = type(ex).__name__
+                    raise
+                finally:
+                    # let the loop run what the call handed to it with `call_soon_threadsafe` (a browser's `_async_cancel`)
+                    # before the state is read -- only possible from a thread that is not the loop's
+                    if rig.flush and zc.loop is not None and zc.loop.is_running() and asyncio._get_running_loop() is not zc.loop:
+                        try:
+                            asyncio.run_coroutine_threadsafe(asyncio.sleep(0), zc.loop).result(1)
+                        except BaseException:  # noqa: BLE001
+                            pass
+                    ent["after"] = snapshot(zc)
+                    ent["goodbyes"] = sum(1 for e in rig.log[ent["n_log"]:] if e[1] == "sent" and rec_keys(e[2], True))
+            return f
+
         self.patches = [
             mock.patch.object(core, "create_sockets", create_sockets),
             mock.patch.object(eng.AsyncEngine, "_async_create_endpoints", create_endpoints),
             mock.patch.object(core, "_CHECK_TIME", self.fast),
             mock.patch.object(core, "_REGISTER_TIME", self.fast),
             mock.patch.object(core, "_UNREGISTER_TIME", self.fast),
+            mock.patch.object(core.Zeroconf, "unregister_all_services", logged("unregister", lambda z: z, core.Zeroconf.unregister_all_services)),
+            mock.patch.object(core.Zeroconf, "_close", logged("markdone", lambda z: z, core.Zeroconf._close)),
+            mock.patch.object(eng.AsyncEngine, "close", logged("engine", lambda e: e.zc, eng.AsyncEngine.close)),
+            mock.patch.object(core.Zeroconf, "_shutdown_threads", logged("threads", lambda z: z, core.Zeroconf._shutdown_threads)),
         ]
+        if self.cleanup_interval is not None:
+            self.patches.append(mock.patch.object(eng, "_CACHE_CLEANUP_INTERVAL", self.cleanup_interval))
+        if self.ptr_min_ttl is not None:
+            self.patches.append(mock.patch.object(rmm, "_DNS_PTR_MIN_TTL", self.ptr_min_ttl))
+        if self.safeguard is not None:
+            # the safeguard timeouts of the sync API ("should never be reached in normal operation"): 13 s / 3 s / 3 s in the library
+            self.patches += [mock.patch.object(eng, "_CLOSE_TIMEOUT", int(self.safeguard * 1000)),
+                             mock.patch.object(uas, "_LOADED_SYSTEM_TIMEOUT", self.safeguard),
+                             mock.patch.object(uas, "_GET_ALL_TASKS_TIMEOUT", self.safeguard),
+                             mock.patch.object(uas, "_WAIT_FOR_LOOP_TASKS_TIMEOUT", self.safeguard)]
         for p in self.patches:
             p.start()
         return self
@@ -124,25 +209,144 @@ def rec_keys(data, ttl0):
     return out
 
 
-def sync_close_scenario(variant, n_services, distinct_addrs):
-    """thread-backed instance (created with no running loop), services registered through the blocking API, then the
-    blocking `close()` from: a plain thread / a coroutine of another event loop running in the calling thread / a
-    worker thread that runs its own event loop"""
-    from zeroconf import ServiceInfo, Zeroconf
+def expected_records(infos):
+    out = set()
+    for info in infos:
+        for r in [info.dns_pointer(), info.dns_service(), info.dns_text()] + list(info.get_address_and_nsec_records()):
+            tok = C.rec_line(r, created=0).split()
+            out.add(" ".join(tok[:4] + tok[7:]))
+    return out
+
+
+def ptr_response(type_, names, ttl=4500):
+    from zeroconf import DNSOutgoing, const
+    from zeroconf._dns import DNSPointer
+
+    out = DNSOutgoing(const._FLAGS_QR_RESPONSE | const._FLAGS_AA)
+    for n in names:
+        out.add_answer_at_time(DNSPointer(type_, const._TYPE_PTR, const._CLASS_IN, ttl, n + "." + type_), 0)
+    return out.packets()[0]
+
+
+class Recorder:
+    """a ServiceListener that notes when each callback *starts*, on which thread, optionally sleeping first-thing"""
+
+    def __init__(self, events, tag, sleep_ms=0, on_add=None):
+        self.events, self.tag, self.sleep_ms, self.on_add = events, tag, sleep_ms, on_add
+
+    def _ev(self, kind, name):
+        self.events.append((time.monotonic(), self.tag, kind, name, threading.current_thread().name))
+
+    def add_service(self, zc, t, n):
+        self._ev("add", n)
+        if self.on_add is not None:
+            self.on_add(zc, n)
+        if self.sleep_ms:
+            time.sleep(self.sleep_ms / 1000.0)
+
+    def remove_service(self, zc, t, n):
+        self._ev("rem", n)
+
+    def update_service(self, zc, t, n):
+        self._ev("upd", n)
+
+
+def judge_after_close(bad, what, zc, rig, log0, t_ret, events, expected, loop_goes_on, loop_errors=()):
+    """the property's sentences after a sync close() that returned at `t_ret`"""
+    log = rig.log[log0:]
+    t_closed = min([e[0] for e in log if e[1] == "transport-closed"], default=None)
+    gone = set()
+    for e in log:
+        if e[1] == "sent" and (t_closed is None or e[0] <= t_closed):
+            gone |= rec_keys(e[2], True)
+    missing = sorted(expected - gone)
+    if missing:
+        sig = "C17:registered-before-close-no-goodbye" if len(missing) == len(expected) else "C17:registered-service-record-not-withdrawn"
+        bad.append((sig, "%s: %d of %d records of the registered services were never sent with TTL 0 before the transports closed"
+                    % (what, len(missing), len(expected))))
+    late = [e for e in log if e[0] > t_ret and e[1] in ("sent", "sendto-on-closed")]
+    if late:
+        bad.append(("C17:send-after-close", "%s: datagram handed to a transport %.0f ms after close returned" % (what, (late[0][0] - t_ret) * 1000)))
+    if any(e[1] == "transport-aborted" for e in log):
+        bad.append(("C17:transport-aborted", "%s aborted the transports instead of closing them" % what))
+    st = snapshot(zc)
+    if not st["done"] or not st["tclosed"]:
+        bad.append(("C17:not-shut-down", "%s: after close returned done=%s, transports closed=%s" % (what, st["done"], st["tclosed"])))
+    elif loop_goes_on and st["cleanup"]:
+        # (on an instance that ran its own loop the loop is stopped: an armed handle there can never fire)
+        bad.append(("C17:not-shut-down", "%s: the periodic cache-cleanup timer is still armed after close returned, on a loop that goes on running" % what))
+    if st["zc_browsers"]:
+        bad.append(("C17:tracked-browser-not-cancelled", "%s: %d browsers made by add_service_listener are still tracked after close returned" % (what, st["zc_browsers"])))
+    late_cb = [e for e in events if e[0] > t_ret]
+    if late_cb:
+        bad.append(("C17:callback-after-close", "%s: %d listener callbacks started after close returned (first: %s %s, %.0f ms late, thread %s)"
+                    % (what, len(late_cb), late_cb[0][1], late_cb[0][2], (late_cb[0][0] - t_ret) * 1000, late_cb[0][4])))
+    if loop_errors:
+        bad.append(("C17:loop-exception", "%s: loop exception handler called: %s" % (what, loop_errors[0])))
+    return st
+
+
+def close_again(bad, what, zc, rig, n, from_thread):
+    """`n` further sequential close() calls: each returns at once, raises nothing, sends nothing, changes nothing"""
+    for k in range(n):
+        before = snapshot(zc)
+        n0 = len(rig.log)
+        err = []
+        t0 = time.monotonic()
+
+        def again():
+            try:
+                zc.close()
+            except BaseException as ex:  # noqa: BLE001
+                err.append(type(ex).__name__)
+
+        if from_thread:
+            th = threading.Thread(target=again)
+            th.start()
+            th.join(30)
+        else:
+            again()
+        dt = time.monotonic() - t0
+        if err:
+            bad.append(("C17:closing-again-raises:" + err[0], "%s: close() call #%d on the closed instance raised %s after %.1f s" % (what, k + 2, err[0], dt)))
+        elif dt > 1.0:
+            bad.append(("C17:closing-again-blocks", "%s: close() call #%d on the closed instance took %.1f s" % (what, k + 2, dt)))
+        if [e for e in rig.log[n0:] if e[1] in ("sent", "sendto-on-closed")]:
+            bad.append(("C17:second-close-sends", "%s: close() call #%d handed datagrams to a transport" % (what, k + 2)))
+        after = snapshot(zc)
+        changed = sorted(k_ for k_ in ("done", "tclosed", "cleanup") if before[k_] != after[k_])
+        if changed:
+            bad.append(("C17:second-close-changes-state", "%s: close() call #%d changed %s" % (what, k + 2, changed)))
+
+
+def make_infos(n_services, distinct_addrs):
+    from zeroconf import ServiceInfo
+
+    return [ServiceInfo(TA, "t%d.%s" % (i, TA), 80 + i, addresses=[socket.inet_aton("10.0.%d.1" % (i if distinct_addrs else 0))],
+                        server="ht.local.") for i in range(n_services)]
+
+
+def thread_backed_scenario(case):
+    """thread-backed instance (created with no running loop), services registered through the blocking API, optionally a
+    tracked thread-based browser with slow callbacks and state changes still queued, then the blocking `close()` from: a plain
+    thread / a coroutine of another event loop running in the calling thread / a worker thread that runs its own event loop;
+    then `again` further close() calls"""
+    from zeroconf import Zeroconf
 
     bad = []
+    events = []
     with Rig() as rig:
         zc = Zeroconf(interfaces=["10.0.0.1"])
         try:
-            infos = [ServiceInfo(TA, "t%d.%s" % (i, TA), 80 + i, addresses=[socket.inet_aton("10.0.%d.1" % (i if distinct_addrs else 0))],
-                                 server="ht.local.") for i in range(n_services)]
+            infos = make_infos(case["n_services"], case["distinct_addrs"])
             for info in infos:
                 zc.register_service(info, cooperating_responders=True)
-            expected = set()
-            for info in infos:
-                for r in [info.dns_pointer(), info.dns_service(), info.dns_text()] + list(info.get_address_and_nsec_records()):
-                    tok = C.rec_line(r, created=0).split()
-                    expected.add(" ".join(tok[:4] + tok[7:]))
+            if case.get("tracked_browser"):
+                zc.add_service_listener(TB, Recorder(events, "tracked", sleep_ms=30))
+                time.sleep(0.05)
+                zc.loop.call_soon_threadsafe(zc.engine.protocols[0].datagram_received, ptr_response(TB, ["x0", "x1", "x2"]), ("10.0.0.9", 5353))
+                time.sleep(0.02)   # the first callback is running, two more are queued
+            expected = expected_records(infos)
             n0 = len(rig.log)
             err = []
 
@@ -152,6 +356,7 @@ def sync_close_scenario(variant, n_services, distinct_addrs):
                 except BaseException as ex:  # noqa: BLE001
                     err.append(type(ex).__name__)
 
+            variant = case["variant"]
             if variant == "plain-thread":
                 do_close()
             elif variant == "other-loop-same-thread":
@@ -168,71 +373,124 @@ def sync_close_scenario(variant, n_services, distinct_addrs):
                 t.start()
                 t.join(30)
             t_ret = time.monotonic()
-            time.sleep(0.12)
-            log = rig.log[n0:]
+            what = "close() from %s (instance with its own loop thread)" % variant
             if err:
-                bad.append(("C17:close-call-raises:" + err[0], "close() (%s) raised %s" % (variant, err[0])))
-            t_closed = min([e[0] for e in log if e[1] == "transport-closed"], default=None)
-            gone = set()
-            for e in log:
-                if e[1] == "sent" and (t_closed is None or e[0] <= t_closed):
-                    gone |= rec_keys(e[2], True)
-            missing = sorted(expected - gone)
-            if missing:
-                sig = "C17:registered-before-close-no-goodbye" if len(missing) == len(expected) else "C17:registered-service-record-not-withdrawn"
-                bad.append((sig, "close() from %s: %d of %d records of the registered services were never sent with TTL 0 before the transports closed"
-                            % (variant, len(missing), len(expected))))
-            late = [e for e in log if e[0] > t_ret and e[1] in ("sent", "sendto-on-closed")]
-            if late:
-                bad.append(("C17:send-after-close", "close() from %s: datagram handed to a transport %.0f ms after close returned" % (variant, (late[0][0] - t_ret) * 1000)))
-            if any(e[1] == "transport-aborted" for e in log):
-                bad.append(("C17:transport-aborted", "close() from %s aborted the transports instead of closing them" % variant))
-            if not zc.done or t_closed is None:
-                bad.append(("C17:not-shut-down", "close() from %s: done=%s transports closed=%s" % (variant, zc.done, t_closed is not None)))
+                bad.append(("C17:close-call-raises:" + err[0], "%s raised %s" % (what, err[0])))
+            judge_after_close(bad, what, zc, rig, n0, t_ret, events, expected, loop_goes_on=False)
+            # (whether the loop thread was stopped and forgotten is not the property's business: stage C compares it, `c17sync`)
+            close_again(bad, what, zc, rig, case.get("again", 1), from_thread=bool(case.get("again_from_thread")))
+            time.sleep(0.12)
+            late = [e for e in rig.log[n0:] if e[0] > t_ret and e[1] in ("sent", "sendto-on-closed")]
+            if late and not any(b[0] == "C17:send-after-close" for b in bad):
+                bad.append(("C17:send-after-close", "%s: datagram handed to a transport %.0f ms after close returned" % (what, (late[0][0] - t_ret) * 1000)))
+            late_cb = [e for e in events if e[0] > t_ret]
+            if late_cb and not any(b[0] == "C17:callback-after-close" for b in bad):
+                bad.append(("C17:callback-after-close", "%s: %d listener callbacks started after close returned" % (what, len(late_cb))))
         finally:
-            if not zc.done:
-                try:
-                    zc.close()
-                except Exception:  # noqa: BLE001
-                    pass
-    return bad
+            force_close(zc)
+    return bad, rig.calls
 
 
-def threaded_browser_scenario(n_records, callback_ms, closer):
+def force_close(zc):
+    if not zc.done or (zc._loop_thread is not None and zc.loop.is_running()):
+        try:
+            zc.close()
+        except BaseException:  # noqa: BLE001
+            pass
+    if zc._loop_thread is not None and zc.loop is not None and zc.loop.is_running():
+        zc.loop.call_soon_threadsafe(zc.loop.stop)
+
+
+def loop_backed_scenario(case):
+    """loop-backed instance on a real loop that goes on after the close: services registered through the async API, an untracked
+    `AsyncServiceBrowser` (never cancelled) whose cached pointer record expires shortly after the close (cache cleanup every
+    200 ms, PTR floor 1 s), optionally a tracked thread-based browser; `close()` from `closers` executor threads one after
+    the other; the loop is watched for `watch_ms` afterwards"""
+    from zeroconf import Zeroconf
+    from zeroconf.asyncio import AsyncServiceBrowser, AsyncZeroconf
+
+    bad = []
+    events = []
+    errors = []
+    calls_out = []
+
+    async def main(rig):
+        loop = asyncio.get_running_loop()
+        loop.set_exception_handler(lambda l, ctx: errors.append(str(ctx.get("exception") or ctx.get("message"))[:200]))
+        zc = Zeroconf(interfaces=["10.0.0.1"])
+        aza = AsyncZeroconf(zc=zc)
+        await zc.async_wait_for_start()
+        infos = make_infos(case["n_services"], case["distinct_addrs"])
+        for info in infos:
+            await (await aza.async_register_service(info, cooperating_responders=True))
+        AsyncServiceBrowser(zc, [TB], listener=Recorder(events, "untracked-async"))
+        if case.get("tracked_browser"):
+            await loop.run_in_executor(None, zc.add_service_listener, TB, Recorder(events, "tracked", sleep_ms=30))
+            await asyncio.sleep(0.05)
+        zc.engine.protocols[0].datagram_received(ptr_response(TB, ["x0", "x1"], ttl=1), ("10.0.0.9", 5353))
+        await asyncio.sleep(case["close_after_ms"] / 1000.0)
+        expected = expected_records(infos)
+        n0 = len(rig.log)
+        err = []
+
+        def do_close():
+            try:
+                zc.close()
+            except BaseException as ex:  # noqa: BLE001
+                err.append(type(ex).__name__)
+
+        await loop.run_in_executor(None, do_close)
+        t_ret = time.monotonic()
+        what = "close() from an executor thread (instance on the application's loop)"
+        if err:
+            bad.append(("C17:close-call-raises:" + err[0], "%s raised %s" % (what, err[0])))
+        judge_after_close(bad, what, zc, rig, n0, t_ret, events, expected, loop_goes_on=True, loop_errors=errors)
+        # what is still scheduled on the loop for the instance (informational, except the two handles the close must cancel)
+        left = []
+        for h in list(getattr(loop, "_scheduled", [])):
+            cb = getattr(h, "_callback", None)
+            owner = getattr(cb, "__self__", None)
+            if not h.cancelled() and type(owner).__module__.startswith("zeroconf"):
+                left.append(type(owner).__name__ + "." + getattr(cb, "__name__", "?"))
+        case["_timers_left"] = sorted(left)
+        await loop.run_in_executor(None, close_again, bad, what, zc, rig, case.get("again", 1), False)
+        await asyncio.sleep(case["watch_ms"] / 1000.0)
+        late = [e for e in rig.log[n0:] if e[0] > t_ret and e[1] in ("sent", "sendto-on-closed")]
+        if late and not any(b[0] == "C17:send-after-close" for b in bad):
+            bad.append(("C17:send-after-close", "%s: datagram handed to a transport %.0f ms after close returned" % (what, (late[0][0] - t_ret) * 1000)))
+        late_cb = [e for e in events if e[0] > t_ret]
+        if late_cb and not any(b[0] == "C17:callback-after-close" for b in bad):
+            bad.append(("C17:callback-after-close", "%s: listener callback %s %s %.0f ms after close returned (thread %s): a timer the close left armed fired"
+                        % (what, late_cb[0][1], late_cb[0][2], (late_cb[0][0] - t_ret) * 1000, late_cb[0][4])))
+        if errors and not any(b[0] == "C17:loop-exception" for b in bad):
+            bad.append(("C17:loop-exception", "%s: loop exception handler called: %s" % (what, errors[0])))
+        calls_out.extend(rig.calls)
+
+    with Rig(cleanup_interval=0.2, ptr_min_ttl=1) as rig:
+        asyncio.run(main(rig))
+    return bad, calls_out
+
+
+def threaded_browser_scenario(case):
     """loop-backed instance; a thread-based ServiceBrowser (Zeroconf.add_service_listener) with slow callbacks has
-    events queued; the instance is shut down from its own loop (`async_close`) or, for comparison, the browser is
-    cancelled through `remove_service_listener` first"""
-    from zeroconf import DNSOutgoing, ServiceListener, Zeroconf, const
-    from zeroconf._dns import DNSPointer
+    events queued; the instance is shut down from its own loop (`async_close`) or from an executor thread (`close`)"""
+    from zeroconf import Zeroconf
     from zeroconf.asyncio import AsyncZeroconf
 
     bad = []
     events = []
-
-    class Slow(ServiceListener):
-        def add_service(self, zc, t, n):
-            time.sleep(callback_ms / 1000.0)
-            events.append((time.monotonic(), "add", n))
-
-        def remove_service(self, zc, t, n):
-            events.append((time.monotonic(), "rem", n))
-
-        def update_service(self, zc, t, n):
-            events.append((time.monotonic(), "upd", n))
-
     errors = []
+    calls_out = []
+    n_records, callback_ms, closer = case["n_records"], case["callback_ms"], case["closer"]
 
-    async def main():
+    async def main(rig):
         loop = asyncio.get_running_loop()
         loop.set_exception_handler(lambda l, ctx: errors.append(str(ctx.get("exception") or ctx.get("message"))[:200]))
         zc = Zeroconf(interfaces=["10.0.0.1"])
         await zc.async_wait_for_start()
-        zc.add_service_listener(TB, Slow())
+        zc.add_service_listener(TB, Recorder(events, "tracked", sleep_ms=callback_ms))
         await asyncio.sleep(0.05)
-        out = DNSOutgoing(const._FLAGS_QR_RESPONSE | const._FLAGS_AA)
-        for i in range(n_records):
-            out.add_answer_at_time(DNSPointer(TB, const._TYPE_PTR, const._CLASS_IN, 4500, "x%d.%s" % (i, TB)), 0)
-        zc.engine.protocols[0].datagram_received(out.packets()[0], ("10.0.0.9", 5353))
+        zc.engine.protocols[0].datagram_received(ptr_response(TB, ["x%d" % i for i in range(n_records)]), ("10.0.0.9", 5353))
         try:
             if closer == "async_close":
                 await AsyncZeroconf(zc=zc).async_close()
@@ -242,37 +500,310 @@ def threaded_browser_scenario(n_records, callback_ms, closer):
             errors.append("close raised " + type(ex).__name__)
         t_ret = time.monotonic()
         await asyncio.sleep(callback_ms * n_records / 1000.0 + 0.1)
+        calls_out.extend(rig.calls)
         return t_ret
 
-    with Rig():
-        t_ret = asyncio.run(main())
+    with Rig() as rig:
+        t_ret = asyncio.run(main(rig))
     late = [e for e in events if e[0] > t_ret]
     if late:
-        bad.append(("C17:callback-after-close", "thread-based ServiceBrowser: %d of %d listener callbacks ran after %s returned (first %.0f ms late)"
+        bad.append(("C17:callback-after-close", "thread-based ServiceBrowser: %d of %d listener callbacks started after %s returned (first %.0f ms late)"
                     % (len(late), len(events), closer, (late[0][0] - t_ret) * 1000)))
     if errors:
         bad.append(("C17:loop-exception", "loop exception handler called: %s" % errors[0]))
-    return bad
+    return bad, (calls_out if closer != "async_close" else [])
+
+
+def callback_close_scenario(case):
+    """**D30's input class**: the listener of a browser made by `add_service_listener` calls `zc.close()` from its callback
+    (the browser's own thread, a non-loop thread); afterwards the main thread closes too"""
+    from zeroconf import Zeroconf
+
+    bad = []
+    events = []
+    seen = []
+    errors = []
+
+    def on_add(zc_, name):
+        if not seen:
+            seen.append("calling")
+            try:
+                zc_.close()
+                seen.append("returned")
+            except BaseException as ex:  # noqa: BLE001
+                seen.append("raised:" + type(ex).__name__)
+            seen.append(time.monotonic())
+
+    with Rig() as rig:
+        zc = Zeroconf(interfaces=["10.0.0.1"])
+        try:
+            zc.loop.call_soon_threadsafe(zc.loop.set_exception_handler, lambda l, ctx: errors.append(str(ctx.get("exception") or ctx.get("message"))[:200]))
+            infos = make_infos(case["n_services"], False)
+            for info in infos:
+                zc.register_service(info, cooperating_responders=True)
+            expected = expected_records(infos)
+            zc.add_service_listener(TB, Recorder(events, "tracked", on_add=on_add))
+            time.sleep(0.05)
+            n0 = len(rig.log)
+            zc.loop.call_soon_threadsafe(zc.engine.protocols[0].datagram_received, ptr_response(TB, ["x0", "x1"]), ("10.0.0.9", 5353))
+            deadline = time.monotonic() + 5
+            while len(seen) < 3 and time.monotonic() < deadline:
+                time.sleep(0.01)
+            what = "close() from the callback thread of a browser made by add_service_listener"
+            outcome = seen[1] if len(seen) > 1 else "never-returned"
+            t_ret = seen[2] if len(seen) > 2 else time.monotonic()
+            time.sleep(0.1)
+            raised_join = outcome == "raised:RuntimeError"
+            sub = []
+            if outcome.startswith("raised:"):
+                sub.append(("C17:close-call-raises:" + outcome[7:], "%s raised %s" % (what, outcome[7:])))
+            elif outcome != "returned":
+                sub.append(("C17:close-call-hangs", "%s did not return within 5 s" % what))
+            # (a call that raised has not "returned": the sentences about what follows the return apply to a call that did)
+            judge_after_close(sub, what, zc, rig, n0, t_ret, events if outcome == "returned" else [], expected, loop_goes_on=False)
+            # a later close() from the main thread
+            n_err = len(errors)
+            close_again(sub, what, zc, rig, 1, from_thread=False)
+            time.sleep(0.1)
+            if errors[n_err:]:
+                sub.append(("C17:loop-exception", "%s: the next close() made the loop exception handler report: %s" % (what, errors[n_err])))
+            if raised_join:
+                # the recorded finding: the RuntimeError out of Thread.join() and what it predicts -- the instance not shut down by
+                # that call, the browser still tracked, the second _async_cancel asserting in the loop.  Anything else is fresh.
+                predicted = {"C17:close-call-raises:RuntimeError", "C17:not-shut-down", "C17:tracked-browser-not-cancelled", "C17:loop-exception",
+                             "C17:second-close-changes-state"}
+                d30 = [s for s in sub if s[0] in predicted and (s[0] != "C17:loop-exception" or "cancel a browser that was not started" in s[1])]
+                if d30:
+                    bad.append((D30_SIG, "%s raised RuntimeError('cannot join current thread'); consequences: %s"
+                                % (what, "; ".join(s[1] for s in d30 if s[0] != "C17:close-call-raises:RuntimeError")[:600])))
+                bad += [s for s in sub if s not in d30]
+            else:
+                bad += sub
+        finally:
+            force_close(zc)
+    return bad, rig.calls
+
+
+def untracked_thread_browser_scenario(case):
+    """**D31's input class**: `ServiceBrowser(zc, type, listener)` as in README.rst (not tracked by the instance), slow
+    callbacks, state changes still queued when `close()` is called from the main thread"""
+    from zeroconf import ServiceBrowser, Zeroconf
+
+    bad = []
+    events = []
+    with Rig() as rig:
+        zc = Zeroconf(interfaces=["10.0.0.1"])
+        try:
+            infos = make_infos(case["n_services"], False)
+            for info in infos:
+                zc.register_service(info, cooperating_responders=True)
+            expected = expected_records(infos)
+            browser = ServiceBrowser(zc, TB, Recorder(events, "untracked-thread", sleep_ms=30))
+            time.sleep(0.05)
+            zc.loop.call_soon_threadsafe(zc.engine.protocols[0].datagram_received,
+                                         ptr_response(TB, ["x%d" % i for i in range(case["n_records"])]), ("10.0.0.9", 5353))
+            time.sleep(0.02)
+            n0 = len(rig.log)
+            err = []
+            try:
+                zc.close()
+            except BaseException as ex:  # noqa: BLE001
+                err.append(type(ex).__name__)
+            t_ret = time.monotonic()
+            what = "close() with an untracked thread-based ServiceBrowser holding queued state changes"
+            time.sleep(0.03 * case["n_records"] + 0.1)
+            sub = []
+            if err:
+                sub.append(("C17:close-call-raises:" + err[0], "%s raised %s" % (what, err[0])))
+            judge_after_close(sub, what, zc, rig, n0, t_ret, events, expected, loop_goes_on=False)
+            late = [e for e in events if e[0] > t_ret]
+            for s in sub:
+                if s[0] == "C17:callback-after-close" and late and all(e[1] == "untracked-thread" and e[4] == browser.name for e in late):
+                    bad.append((D31_SIG, "%s: %d of %d listener callbacks started after close() returned (first %.0f ms late), all on the thread of the "
+                                "browser the instance does not track" % (what, len(late), len(events), (late[0][0] - t_ret) * 1000)))
+                else:
+                    bad.append(s)
+            close_again(bad, what, zc, rig, 1, from_thread=False)
+        finally:
+            force_close(zc)
+    return bad, rig.calls
+
+
+def concurrent_close_scenario(case):
+    """**D32's input class** when `thread_backed`: `n_threads` threads call `close()` at (nearly) the same time on an instance
+    with a registered service.  (Loop-backed: the same from executor threads; no loop thread to stop.)  Safeguard timeouts
+    shortened to 0.4 s."""
+    from zeroconf import Zeroconf
+
+    bad = []
+    results = []
+    what = "%d overlapping close() calls from %d threads (%s instance)" % (case["n_threads"], case["n_threads"],
+                                                                          "thread-backed" if case["thread_backed"] else "loop-backed")
+
+    def closer(zc, k):
+        time.sleep(case["stagger_ms"] * k / 1000.0)
+        t0 = time.monotonic()
+        try:
+            zc.close()
+            results.append((k, "ok", time.monotonic() - t0, time.monotonic()))
+        except BaseException as ex:  # noqa: BLE001
+            results.append((k, type(ex).__name__, time.monotonic() - t0, time.monotonic()))
+
+    def judge(zc, rig, n0, expected):
+        oks = [r for r in results if r[1] == "ok"]
+        sub = []
+        for r in sorted(results):
+            if r[1] != "ok":
+                sub.append(("C17:close-call-raises:" + r[1], "%s: call #%d raised %s after %.1f s" % (what, r[0], r[1], r[2])))
+        if len(results) < case["n_threads"]:
+            sub.append(("C17:close-call-hangs", "%s: %d calls did not return" % (what, case["n_threads"] - len(results))))
+        if oks:
+            t_ret = min(r[3] for r in oks)
+            judge_after_close(sub, what, zc, rig, n0, t_ret, [], expected, loop_goes_on=not case["thread_backed"])
+        for s in sub:
+            # the recorded finding: one of the overlapping calls raises out of engine.close() / _shutdown_threads() because another
+            # one stopped the loop under it.  Only on an instance that owns its loop thread, only these exceptions.
+            if case["thread_backed"] and s[0] in ("C17:close-call-raises:EventLoopBlocked", "C17:close-call-raises:TimeoutError",
+                                                  "C17:close-call-raises:AttributeError"):
+                bad.append((D32_SIG, s[1]))
+            else:
+                bad.append(s)
+
+    if case["thread_backed"]:
+        with Rig(safeguard=1.0, flush=False) as rig:
+            zc = Zeroconf(interfaces=["10.0.0.1"])
+            try:
+                infos = make_infos(case["n_services"], False)
+                for info in infos:
+                    zc.register_service(info, cooperating_responders=True)
+                expected = expected_records(infos)
+                n0 = len(rig.log)
+                ts = [threading.Thread(target=closer, args=(zc, k)) for k in range(case["n_threads"])]
+                for t in ts:
+                    t.start()
+                for t in ts:
+                    t.join(20)
+                judge(zc, rig, n0, expected)
+            finally:
+                force_close(zc)
+    else:
+        from zeroconf.asyncio import AsyncZeroconf
+
+        async def main(rig):
+            loop = asyncio.get_running_loop()
+            zc = Zeroconf(interfaces=["10.0.0.1"])
+            aza = AsyncZeroconf(zc=zc)
+            await zc.async_wait_for_start()
+            infos = make_infos(case["n_services"], False)
+            for info in infos:
+                await (await aza.async_register_service(info, cooperating_responders=True))
+            expected = expected_records(infos)
+            n0 = len(rig.log)
+            await asyncio.gather(*[loop.run_in_executor(None, closer, zc, k) for k in range(case["n_threads"])])
+            judge(zc, rig, n0, expected)
+
+        with Rig(safeguard=2.0, flush=False) as rig:
+            asyncio.run(main(rig))
+    return bad, []
+
+
+# ------------------------------------------------------------------------------------------
+# stage C: the four calls of Zeroconf.close() against the Lean model
+
+
+def snap_tok(s):
+    return "%s %s %s %s %s %d %d %d" % (C.b01(s["done"]), C.b01(s["tclosed"]), C.b01(s["cleanup"]), C.b01(s["loop_thread"]),
+                                       C.b01(s["loop_running"]), s["registry"], s["zc_browsers"], s["zc_cancelled"])
+
+
+RAISED = {None: "-", "RuntimeError": "re", "TimeoutError": "to"}
+
+
+def sync_lines(calls):
+    """one `c17sync` line per observed call"""
+    lines, info = [], []
+    for c in calls:
+        if "after" not in c or c["raised"] not in RAISED:
+            continue
+        lines.append("c17sync %s %s %s %s %d %s" % (c["call"], "-" if c["caller"] is None else str(c["caller"]), snap_tok(c["before"]),
+                                                     snap_tok(c["after"]), c["goodbyes"], RAISED[c["raised"]]))
+        info.append(c)
+    return lines, info
+
+
+def gen_cases(seed):
+    rng = C.rng_for(seed, "c17-threads")
+    cases = []
+    for variant in ("plain-thread", "other-loop-same-thread", "other-loop-worker-thread"):
+        cases.append({"threads": "sync-close", "variant": variant, "n_services": rng.choice([1, 2]), "distinct_addrs": rng.random() < 0.5,
+                      "tracked_browser": rng.random() < 0.5, "again": rng.choice([1, 2]), "again_from_thread": rng.random() < 0.5})
+    # no service at all (the goodbye phase is empty: close goes straight to _close()), and a tracked browser for certain
+    cases.append({"threads": "sync-close", "variant": "plain-thread", "n_services": 0, "distinct_addrs": False, "tracked_browser": True,
+                  "again": 2, "again_from_thread": True})
+    for tb in (False, True):
+        cases.append({"threads": "loop-backed-close", "n_services": rng.choice([1, 2]), "distinct_addrs": rng.random() < 0.5, "tracked_browser": tb,
+                      "close_after_ms": rng.choice([650, 750, 850]), "watch_ms": 700, "again": rng.choice([1, 2])})
+    cases.append({"threads": "threaded-browser", "n_records": rng.choice([2, 3]), "callback_ms": 30, "closer": "async_close"})
+    cases.append({"threads": "threaded-browser", "n_records": 2, "callback_ms": 30, "closer": "close-from-thread"})
+    cases.append({"threads": "close-from-callback", "n_services": rng.choice([0, 1])})
+    cases.append({"threads": "untracked-thread-browser", "n_services": rng.choice([0, 1]), "n_records": rng.choice([3, 4])})
+    cases.append({"threads": "concurrent-close", "thread_backed": True, "n_threads": rng.choice([2, 3]), "n_services": 1, "stagger_ms": rng.choice([0, 0, 5])})
+    cases.append({"threads": "concurrent-close", "thread_backed": False, "n_threads": 2, "n_services": 1, "stagger_ms": rng.choice([0, 5])})
+    return cases
 
 
 def run(res, ctx, violate):
-    """all thread scenarios (a fixed small set + seed-chosen parameters); ~2 s of wall time"""
-    rng = C.rng_for(ctx["seed"], "c17-threads")
-    cases = []
-    for variant in ("plain-thread", "other-loop-same-thread", "other-loop-worker-thread"):
-        cases.append({"threads": "sync-close", "variant": variant, "n_services": rng.choice([1, 2]), "distinct_addrs": rng.random() < 0.5})
-    cases.append({"threads": "threaded-browser", "n_records": rng.choice([2, 3]), "callback_ms": 30, "closer": "async_close"})
-    cases.append({"threads": "threaded-browser", "n_records": 2, "callback_ms": 30, "closer": "close-from-thread"})
-    for case in cases:
-        bad = run_one(case)
+    """all thread scenarios (a fixed set + seed-chosen parameters); ~10 s of wall time"""
+    import logging
+
+    logging.getLogger("asyncio").setLevel(logging.CRITICAL)   # "Task was destroyed but it is pending" of loops stopped under a pending close (D32)
+    acc = []
+    for case in gen_cases(ctx["seed"]):
+        bad, calls = run_one(case, with_calls=True)
         res.evaluations += 1
-        res.count("threads:" + case["threads"] + "/" + str(case.get("variant") or case.get("closer")))
-        res.nontriv("threads/%s/%s" % (case["threads"], case.get("variant") or case.get("closer")))
+        label = case["threads"] + "/" + str(case.get("variant") or case.get("closer") or ("thread-backed" if case.get("thread_backed") else ""))
+        res.count("threads:" + label)
+        res.nontriv("threads/%s/%s/%s" % (label, case.get("n_services"), bool(case.get("tracked_browser"))))
+        for t_ in case.pop("_timers_left", []):
+            res.count("threads:handle-still-scheduled-after-close:" + t_)
         for sig, what in bad:
             violate(res, sig, what, {"case": case})
+        acc.append((case, calls))
+    if not ctx["driver_ok"]:
+        return
+    lines, spans = [], []
+    for case, calls in acc:
+        ls, info = sync_lines(calls)
+        spans.append((case, info, len(lines)))
+        lines += ls
+    if not lines:
+        return
+    try:
+        out = C.run_driver(lines)
+    except C.DriverUnavailable as ex:
+        res.notes.append("driver unavailable: %s" % ex)
+        return
+    for case, info, a in spans:
+        for k, c in enumerate(info):
+            res.count("sync-close-call:" + c["call"] + ("/raised" if c["raised"] else ""))
+            if out[a + k] != "ok":
+                res.disagree("c17sync", {"case": case, "call": {x: c[x] for x in ("call", "caller", "before", "after", "goodbyes", "raised")}},
+                             "observed", out[a + k])
+                break
 
 
-def run_one(case):
-    if case["threads"] == "sync-close":
-        return sync_close_scenario(case["variant"], case["n_services"], case["distinct_addrs"])
-    return threaded_browser_scenario(case["n_records"], case["callback_ms"], case["closer"])
+def run_one(case, with_calls=False):
+    kind = case["threads"]
+    if kind == "sync-close":
+        bad, calls = thread_backed_scenario(dict({"again": 1}, **case))
+    elif kind == "loop-backed-close":
+        bad, calls = loop_backed_scenario(case)
+    elif kind == "threaded-browser":
+        bad, calls = threaded_browser_scenario(case)
+    elif kind == "close-from-callback":
+        bad, calls = callback_close_scenario(case)
+    elif kind == "untracked-thread-browser":
+        bad, calls = untracked_thread_browser_scenario(case)
+    else:
+        bad, calls = concurrent_close_scenario(case)
+    return (bad, calls) if with_calls else bad
